@@ -181,6 +181,19 @@ class ExprMixin:
         self.event("global-read", node, module=mi.name, name=gname, val=v)
         return v
 
+    def class_attr_value(self, ci, attr: str, expr: ast.expr, node, state: State) -> Val:
+        """Class attributes are evaluated once (class creation time) and shared by all instances and calls."""
+        key = ("class:" + ci.fq, attr)
+        if key in self.global_cache:
+            return self.global_cache[key]
+        before = set(state.heap)
+        v = self.eval_in_module(ci.module, expr, state, f"<class {ci.name}>")
+        for loc in set(state.heap) - before:
+            state.heap[loc] = replace(state.heap[loc], origin=f"global:class {ci.name}.{attr}")
+            self.global_cells[loc] = state.heap[loc]
+        self.global_cache[key] = v
+        return v
+
     def eval_in_module(self, mi, expr: ast.expr, state: State, label: str) -> Val:
         self._fid += 1
         fr = Frame(self._fid, None, None, mi, expr, label)
@@ -565,7 +578,7 @@ class ExprMixin:
                 ca = o.cls.lookup_class_attr(attr)
                 if ca is not None:
                     self.event("class-attr-read", node, cls=ca[0], attr=attr)
-                    return self.eval_in_module(ca[0].module, ca[1], state, f"<class {ca[0].name}>")
+                    return self.class_attr_value(ca[0], attr, ca[1], node, state)
                 self.event("missing-attr", node, cls=o.cls, attr=attr)
                 self.do_raise(state, "AttributeError", node, implicit=True, mro=("AttributeError", "Exception"))
                 return Bottom()
@@ -586,7 +599,7 @@ class ExprMixin:
                 ca = obj.ci.lookup_class_attr(attr)
                 if ca is not None:
                     self.event("class-attr-read", node, cls=ca[0], attr=attr)
-                    return self.eval_in_module(ca[0].module, ca[1], state, f"<class {ca[0].name}>")
+                    return self.class_attr_value(ca[0], attr, ca[1], node, state)
                 self.do_raise(state, "AttributeError", node, implicit=True, mro=("AttributeError", "Exception"))
                 return Bottom()
             return ExtV(qual=f"{obj.ext}.{attr}")
